@@ -16,6 +16,8 @@
     failed_format_contributes_nothing
 -/
 import EmitModel.Lemmas.FileSetCalm
+import EmitModel.Lemmas.FileSetKept
+import EmitModel.Model.FileSetLegacy
 
 namespace EmitModel.C10
 open EmitModel.FileSet
@@ -95,7 +97,7 @@ theorem acked_durable {cfg : Config} {E : List Nat → Prop} {c : Nat} (hsep : c
     generalize hw : writeEvents cfg plan a b s1 b.rest = w at h
     obtain ⟨res, oa, s2⟩ := w
     cases res with
-    | retry b' => simp only at h; cases h
+    | retry b' => simp only at h; exact absurd h (syncWritten_ne_ok plan a.name b b' s2 s')
     | noRetry => simp only at h; cases h
     | crashed => simp only at h; cases h
     | ok =>
@@ -171,14 +173,16 @@ theorem acked_never_lost {cfg : Config} {E : List Nat → Prop} {c : Nat} (hsep 
     worker has let go of its file (so the next attempt starts a new file or reopens one with the recovery flag),
     and either nothing of the batch was touched (`b' = b`: the file could not be obtained), or the events before
     the cursor of `b'` were each written in full, the write of the event under the cursor failed, and `b'` is `b`
-    advanced over exactly the written ones — its remainder starts with the failed event. -/
+    advanced over exactly the written ones — its remainder starts with the failed event; the state handed back is
+    the one after the written prefix (if any) was flushed and synced (`syncWritten`, see `retried_prefix_durable`). -/
 theorem failed_batch_rewritten {cfg : Config} {E : List Nat → Prop} {c : Nat} (hsep : cfg.sep = [c])
     (plan : Nat → Fault) (now : Parts) (id : Nat) (b b' : Batch) (s s' : St) (hinv : Inv cfg E c s)
     (hE : ∀ e ∈ b.rest, E e) (h : onBatch cfg plan now id b s = (.retry b', s')) :
     s'.active = none ∧
       (b' = b ∨ ∃ pre e post a0 s0 a1 s1, acquire cfg plan now id b s = .ok a0 s0 ∧
-        b.rest = pre ++ e :: post ∧ b'.rest = e :: post ∧
-        writeEvents cfg plan a0 b s0 pre = (.ok, some a1, s1) ∧ writeEvent cfg plan a1 e s1 = .err s') := by
+        b.rest = pre ++ e :: post ∧ b'.rest = e :: post ∧ b' = pre.foldl Batch.advance b ∧
+        writeEvents cfg plan a0 b s0 pre = (.ok, some a1, s1) ∧ ∃ s2, writeEvent cfg plan a1 e s1 = .err s2 ∧
+          syncWritten plan a0.name b b' s2 = (.retry b', s')) := by
   constructor
   · have := (onBatch_spec (N := fun _ => True) (.inl hsep) plan now id b s trivial hE hinv).2
     rw [h] at this
@@ -203,7 +207,11 @@ theorem failed_batch_rewritten {cfg : Config} {E : List Nat → Prop} {c : Nat} 
         generalize hw : writeEvents cfg plan a0 b s1 b.rest = w at h w2'
         obtain ⟨res, oa, s2⟩ := w
         cases res with
-        | retry b'' => simp only at h w2'; cases h; rw [w2'] at hs; cases hs
+        | retry b'' =>
+          simp only at h w2'
+          have := syncWritten_active plan a0.name b b'' w2'
+          rw [h] at this
+          rw [this] at hs; cases hs
         | noRetry => simp only at h; cases h
         | crashed => simp only at h; cases h
         | ok =>
@@ -225,11 +233,11 @@ theorem failed_batch_rewritten {cfg : Config} {E : List Nat → Prop} {c : Nat} 
       obtain ⟨res, oa, s2⟩ := w
       cases res with
       | retry b'' =>
-        have hb : b'' = b' ∧ s2 = s' := by
-          cases oa <;> simp only at h <;> cases h <;> exact ⟨rfl, rfl⟩
-        obtain ⟨rfl, rfl⟩ := hb
+        have h' : syncWritten plan a0.name b b'' s2 = (.retry b', s') := by
+          cases oa <;> simpa using h
+        obtain ⟨rfl, _⟩ := syncWritten_retry h'
         obtain ⟨pre, e, post, a1, s1, k1, k2, k3, k4⟩ := writeEvents_retry b.rest hw
-        exact .inr ⟨pre, e, post, a0, s0, a1, s1, rfl, k1, by rw [k2]; exact Batch.rest_foldl_advance pre k1, k3, k4⟩
+        exact .inr ⟨pre, e, post, a0, s0, a1, s1, rfl, k1, by rw [k2]; exact Batch.rest_foldl_advance pre k1, k2, k3, s2, k4, h'⟩
       | noRetry => cases oa <;> simp only at h <;> cases h
       | crashed => cases oa <;> simp only at h <;> cases h
       | ok =>
@@ -241,6 +249,124 @@ theorem failed_batch_rewritten {cfg : Config} {E : List Nat → Prop} {c : Nat} 
         | ok u s3 =>
           simp only [hf] at h
           cases hy : syncAll plan a'.name s3 <;> simp only [hy] at h <;> cases h
+
+/-- **What a failed attempt wrote is durable before the rest is retried** (defect D19, fixed). If `on_batch` asks for
+    a retry, then either the batch comes back untouched, or the events before the cursor of the batch handed back
+    — written in full by this attempt and NOT part of the retry — are complete, on a record boundary, in the
+    synced content of the file the attempt wrote to, whose directory entry is durable and which has no unsynced
+    bytes left. (`hcnt`: the byte counter covers the events, as `EventBatch::push` maintains it.) -/
+theorem retried_prefix_durable {cfg : Config} {E : List Nat → Prop} {c : Nat} (hsep : cfg.sep = [c])
+    (hwf : WfEvents E c) (plan : Nat → Fault) (now : Parts) (id : Nat) (b b' : Batch) (s s' : St)
+    (hinv : Inv cfg E c s) (hE : ∀ e ∈ b.rest, E e) (hcnt : (b.rest.map List.length).sum ≤ b.remaining)
+    (h : onBatch cfg plan now id b s = (.retry b', s')) :
+    b' = b ∨ ∃ pre a0 s0 f, acquire cfg plan now id b s = .ok a0 s0 ∧ b.rest = pre ++ b'.rest ∧ pre ≠ [] ∧
+      isMember cfg.pfx cfg.ext a0.name = true ∧ fsGet s'.fs a0.name = some f ∧ f.durable = true ∧
+      f.unsynced = [] ∧ ∀ e ∈ pre, Occurs c e f.synced := by
+  rcases (failed_batch_rewritten hsep plan now id b b' s s' hinv hE h).2 with
+    hb | ⟨pre, e, post, a0, s0, a1, s1, hacq, hrest, hrest', hb', hpre, s2, hfail, hsync⟩
+  · exact .inl hb
+  · obtain ⟨_, hcase⟩ := syncWritten_retry hsync
+    cases pre with
+    | nil => left; simpa using hb'
+    | cons p0 pre0 =>
+      right
+      -- the counter moved: every written event is non-empty and the counter covers the batch
+      have hp0 : E p0 := hE p0 (by rw [hrest]; simp)
+      obtain ⟨body, hbody, _⟩ := hwf p0 hp0
+      have hlen : 0 < p0.length := by rw [hbody]; simp
+      have hrem : b'.remaining ≠ b.remaining := by
+        rw [hb', Batch.remaining_foldl_advance]
+        rw [hrest] at hcnt
+        simp only [List.map_append, List.map_cons, List.sum_append, List.sum_cons] at hcnt ⊢
+        omega
+      rcases hcase with ⟨heq, _⟩ | ⟨_, s3, hf, hy⟩
+      · exact absurd heq hrem
+      · obtain ⟨a1', _, a3⟩ := acquire_spec (cfg := cfg) (E := E) (c := c) (N := fun _ => True) plan now id b s trivial hinv.active
+        simp only [hacq, R.st] at a1'
+        obtain ⟨hm, ⟨f1, hget1, hd1, _⟩, hclean1⟩ := a3 a0 s0 hacq
+        have hgood1 := a1'.goodInv hinv.nodup hinv.good
+        obtain ⟨_, w2, _, _, w5, _⟩ := writeEvents_ok (p0 :: pre0) hpre
+        obtain ⟨t, ht⟩ := writeEvent_err hfail
+        obtain ⟨g1, _, _⟩ := flushFile_ok hf
+        obtain ⟨_, _, z3⟩ := syncAll_ok hy
+        have hget3 : fsGet s3.fs a0.name =
+            some { f1 with unsynced := f1.unsynced ++ (laid cfg.sep a0.needsRecovery (p0 :: pre0) ++ t) } := by
+          rw [g1, ht, w2, w5, appendBytes_appendBytes]; exact fsGet_appendBytes_same _ hget1
+        rcases z3 with ⟨f, hget, hfs⟩ | ⟨hnone, _⟩
+        · rw [hget3] at hget; cases hget
+          refine ⟨p0 :: pre0, a0, s0,
+            File.syncedAll { f1 with unsynced := f1.unsynced ++ (laid cfg.sep a0.needsRecovery (p0 :: pre0) ++ t) },
+            hacq, by rw [hrest, hrest'], by simp, hm,
+            by simp only [hfs, fsGet_fsSet_same], hd1, rfl, ?_⟩
+          have hEpre : ∀ x ∈ p0 :: pre0, E x := fun x hx => hE x (by rw [hrest]; exact List.mem_append_left _ hx)
+          have := occurs_laid hwf (p0 :: pre0) (hgood1 a0.name f1 hget1 hm) (fun hnr => hclean1 hnr f1 hget1) hEpre
+          intro x hx
+          have hx' := (this x hx).append t
+          simpa [File.syncedAll, File.content, hsep, List.append_assoc] using hx'
+        · rw [hget3] at hnone; cases hnone
+
+/-- **A finished batch is durable as a whole, however many attempts it took.** Run `on_batch` under the batcher's
+    retry loop (`processBatch`: any number of attempts, each with its own clock and id reading, each handed the
+    remainder the previous one gave back), under any fault plan, from any state satisfying the invariant. If the
+    loop ends with Ok — the moment the batch counts as processed and its flush callbacks fire (C07) — then EVERY
+    event of the original batch, not only the remainder of the last attempt, is kept: complete, on a record
+    boundary, in synced content of a durable file of the set, unless the worker's own retention deleted that file
+    since the batch began. -/
+theorem batch_done_all_durable {cfg : Config} {E : List Nat → Prop} {c : Nat} (hsep : cfg.sep = [c])
+    (hwf : WfEvents E c) (plan : Nat → Fault) :
+    ∀ (atts : List (Parts × Nat)) (b : Batch) (s s' : St), Inv cfg E c s → (∀ e ∈ b.rest, E e) →
+      (b.rest.map List.length).sum ≤ b.remaining → processBatch cfg plan atts b s = (.ok, s') →
+      Rel cfg (fun _ => True) s s' ∧ ∀ e ∈ b.rest, Kept cfg c s.log.length e s' := by
+  intro atts
+  induction atts with
+  | nil => intro b s s' _ _ _ h; simp [processBatch] at h
+  | cons att rest ih =>
+    intro b s s' hinv hE hcnt h
+    obtain ⟨now, id⟩ := att
+    have hrel1 : Rel cfg (fun _ => True) s (onBatch cfg plan now id b s).2 :=
+      (onBatch_spec (N := fun _ => True) (.inl hsep) plan now id b s trivial hE hinv).1.rel hinv.nodup
+    have hinv1 := onBatch_inv (.inl hsep) plan now id b s hE hinv
+    cases hob : onBatch cfg plan now id b s with
+    | mk r s1 =>
+      rw [hob] at hrel1 hinv1
+      simp only at hrel1 hinv1
+      cases r with
+      | ok =>
+        simp only [processBatch, hob] at h
+        cases h
+        refine ⟨hrel1, fun e he => ?_⟩
+        obtain ⟨a, f, _, hm, hget, hd, _, hocc⟩ := acked_durable hsep hwf plan now id b s s' hinv hE hob
+        exact ⟨a.name, hm, .inr ⟨f, hget, hd, hocc e he⟩⟩
+      | noRetry => simp [processBatch, hob] at h
+      | crashed => simp [processBatch, hob] at h
+      | retry b' =>
+        simp only [processBatch, hob] at h
+        have hlen : s.log.length ≤ s1.log.length := by
+          obtain ⟨⟨extra, hlog, _⟩, _⟩ := hrel1
+          rw [hlog]; simp
+        rcases retried_prefix_durable hsep hwf plan now id b b' s s1 hinv hE hcnt hob with
+          rfl | ⟨pre, a0, s0, f, _, hrest, _, hm, hget, hd, _, hocc⟩
+        · obtain ⟨r1, r2⟩ := ih b' s1 s' hinv1 hE hcnt h
+          exact ⟨hrel1.trans r1, fun e he => (r2 e he).weakenL hlen⟩
+        · have hE' : ∀ e ∈ b'.rest, E e := fun e he => hE e (by rw [hrest]; exact List.mem_append_right _ he)
+          have hb' := (failed_batch_rewritten hsep plan now id b b' s s1 hinv hE hob).2
+          have hcnt' : (b'.rest.map List.length).sum ≤ b'.remaining := by
+            rcases hb' with rfl | ⟨pre', e, post, _, _, _, _, _, k1, k2, k3, _⟩
+            · exact hcnt
+            · rw [k2]
+              have hr : b'.remaining = b.remaining - (pre'.map List.length).sum := by
+                rw [k3, Batch.remaining_foldl_advance]
+              rw [hr]
+              rw [k1] at hcnt
+              simp only [List.map_append, List.map_cons, List.sum_append, List.sum_cons] at hcnt ⊢
+              omega
+          obtain ⟨r1, r2⟩ := ih b' s1 s' hinv1 hE' hcnt' h
+          refine ⟨hrel1.trans r1, fun e he => ?_⟩
+          rw [hrest] at he
+          rcases List.mem_append.mp he with hp | hr
+          · have hk : Kept cfg c s.log.length e s1 := ⟨a0.name, hm, .inr ⟨f, hget, hd, hocc e hp⟩⟩
+            exact hk.mono hlen r1
+          · exact (r2 e hr).weakenL hlen
 
 /-- **Reuse recovers** (1): a file reopened for reuse is always flagged for recovery (and is a member of the set
     with a durable directory entry). -/
@@ -333,6 +459,36 @@ example :
                           sep := [10] }
     let now : Parts := { years := 2024, months := 1, days := 1, hours := 0, minutes := 0, seconds := 0, nanos := 0 }
     (onBatch cfg (fun _ => .ok) now 7 (Batch.ofEvents [[97, 10]]) emptyState).1 = .ok := by
+  decide
+
+/-! ### Defect D19 and its repair, on one concrete history
+
+Two events `a\n`, `b\n` in one batch, files not reused, the write of the second event fails once (operation 5);
+the retry goes to a new file and succeeds. -/
+
+private def cfgD19 : Config :=
+  { pfx := [97], ext := [108], rollBy := .minute, reuse := false, maxFiles := 3, maxSize := 100, sep := [10] }
+private def nowD19 : Parts :=
+  { years := 2024, months := 1, days := 1, hours := 0, minutes := 0, seconds := 0, nanos := 0 }
+private def planD19 : Nat → Fault := fun i => if i = 5 then .err else .ok
+private def batchD19 : Batch := Batch.ofEvents [[97, 10], [98, 10]]
+
+/-- **Defect D19 (before the fix).** The batch ends Ok after one retry, yet the first event sits in a file whose
+    synced content is empty: it was written by the failed attempt, was not part of the retry and was never synced. -/
+theorem legacy_retry_leaves_prefix_unsynced :
+    (processBatchLegacy cfgD19 planD19 [(nowD19, 7), (nowD19, 8)] batchD19 emptyState).1 = .ok ∧
+    (processBatchLegacy cfgD19 planD19 [(nowD19, 7), (nowD19, 8)] batchD19 emptyState).2.fs.any
+      (fun nf => nf.2.synced == [] && nf.2.unsynced == [97, 10]) = true := by
+  decide
+
+-- the hypotheses of `retried_prefix_durable` / `batch_done_all_durable` are met by that history on the fixed model:
+-- the first attempt hands back a proper remainder, the loop ends Ok, and both events are in synced content
+example : (batchD19.rest.map List.length).sum ≤ batchD19.remaining := by decide
+example : ∃ b' s', onBatch cfgD19 planD19 nowD19 7 batchD19 emptyState = (.retry b', s') ∧ b' ≠ batchD19 ∧
+    b'.rest = [[98, 10]] := ⟨_, _, rfl, by decide, by decide⟩
+example : (processBatch cfgD19 planD19 [(nowD19, 7), (nowD19, 8)] batchD19 emptyState).1 = .ok ∧
+    (processBatch cfgD19 planD19 [(nowD19, 7), (nowD19, 8)] batchD19 emptyState).2.fs.all
+      (fun nf => nf.2.unsynced == [] && (nf.2.synced == [97, 10] || nf.2.synced == [98, 10])) = true := by
   decide
 
 end EmitModel.C10
